@@ -26,7 +26,7 @@ def f2u32 (x : Float) : Nat :=
   else if x < 0 then (2^64 - (-x).toUInt64.toNat) % 2^32
   else x.toUInt64.toNat % 2^32
 
-def opsF : Ops Float := ⟨Float.floor, Float.abs, f2u32⟩
+def opsF : Ops Float := ⟨Float.floor, Float.abs, f2u32, westEdgeOf Float.ofNat⟩
 
 def splitSemi (ts : Toks) : List Toks :=
   let rec go (cur : Toks) (acc : List Toks) : Toks → List Toks
@@ -306,34 +306,61 @@ def fuelOf (fs : List (Pt UInt64)) : Nat :=
   let ext := (mx xs - mn xs) + (mx ys - mn ys)
   if ext.isNaN || ext > 1e7 then 20000000 else 2 * ext.toUInt64.toNat + 64
 
-/-- point tile expected from a fraction, exactly as `maptile.At` documents it -/
-def atQ (f : QP) (z : Nat) : Int × Int :=
-  let x := qfloor f.x
+/-- The tile that contains the point: the column from the LONGITUDE, exactly — `⌊(lon/360 + 1/2)·2^z⌋` over
+    the rationals, i.e. the unique column `x` with `Bound().Min[0] ≤ lon < Bound().Max[0]` (the edges
+    `360*(x/2^z - 0.5)` of `Tile.Bound()` are computed without rounding, which `edgesExact` re-checks on the
+    twin of that expression) — kept inside `0 … 2^z - 1` (lon = 180 belongs to the last column); the row
+    from the shipped fraction (`Fraction`'s latitude goes through math.Sin / math.Log). -/
+def atQ (lon : Q) (f : QP) (z : Nat) : Int × Int :=
   let n : Int := (2 ^ z : Nat)
-  (if x ≥ n then n - 1 else x, qfloor f.y)
+  let x := qfloor ((lon / 360 + 1 / 2) * (n : Q))
+  (if x ≥ n then n - 1 else if x < 0 then 0 else x, qfloor f.y)
 
-/-- Executable statement of the cover clauses on the implementation's outcome `cov`. -/
-partial def specCover (z : Nat) (g : Geom Q) (emptyBound : Bool) (cov : List (Nat × Nat)) : Option String :=
+/-- the Float twin of `Tile.Bound()`'s longitude expression gives the exact edge of columns `x` and `x+1` -/
+def edgesExact (z : Nat) (x : Int) : Bool :=
+  let n := 2 ^ z
+  [x.toNat, x.toNat + 1].all fun c =>
+    bitsToRat? (westEdgeOf Float.ofNat c n).toBits == some (360 * ((c : Q) / (n : Q) - 1 / 2))
+
+/-- lon (exact) and fraction (exact) of a raw vertex -/
+def lonFrac (tab : FracTab) (p : Pt UInt64) : Option (Q × QP) := do
+  let lon ← bitsToRat? p.x
+  let f ← toQP (fracBits tab p)
+  pure (lon, f)
+
+/-- Executable statement of the cover clauses on the implementation's outcome `cov`; `raw` is the lon/lat
+    geometry, `g` the same geometry in exact tile-fraction coordinates. -/
+partial def specCover (z : Nat) (tab : FracTab) (raw : Geom UInt64) (g : Geom Q) (emptyBound : Bool)
+    (cov : List (Nat × Nat)) : Option String :=
   let set := mkSet cov
-  match g with
-  | .point p =>
-    let (x, y) := atQ p z
-    if cov.length == 1 && hasTile set x y then none else some "point-tile"
-  | .multiPoint ps =>
-    let want := ps.map fun p => atQ p z
-    if !(want.all fun (x, y) => hasTile set x y) then some "multipoint-missing"
-    else if !(cov.all fun (x, y) => want.contains ((x : Int), (y : Int))) then some "multipoint-extra"
-    else none
-  | .bound a b =>
+  let at? (p : Pt UInt64) : Option (Int × Int) := (lonFrac tab p).map fun (lon, f) => atQ lon f z
+  match raw, g with
+  | .point p, _ =>
+    (match at? p with
+     | none => some "point-not-finite"
+     | some (x, y) =>
+       if !edgesExact z x then some "edge-inexact" else
+       if cov.length == 1 && hasTile set x y then none else some "point-tile")
+  | .multiPoint ps, _ =>
+    (match ps.mapM at? with
+     | none => some "multipoint-not-finite"
+     | some want =>
+       if !(want.all fun (x, _) => edgesExact z x) then some "edge-inexact" else
+       if !(want.all fun (x, y) => hasTile set x y) then some "multipoint-missing"
+       else if !(cov.all fun (x, y) => want.contains ((x : Int), (y : Int))) then some "multipoint-extra"
+       else none)
+  | .bound a b, _ =>
     if emptyBound then (if cov.isEmpty then none else some "bound-empty-nonempty") else
-    let (lx, ly) := atQ a z
-    let (hx, hy) := atQ b z
-    let wantN := ((hx + 1 - lx).toNat) * ((ly + 1 - hy).toNat)
-    if cov.length != wantN then some "bound-count"
-    else if !(cov.all fun (x, y) => lx ≤ (x : Int) && (x : Int) ≤ hx && hy ≤ (y : Int) && (y : Int) ≤ ly) then some "bound-rect"
-    else none
-  | .collection _ => none
-  | g =>
+    (match at? a, at? b with
+     | some (lx, ly), some (hx, hy) =>
+       if !(edgesExact z lx && edgesExact z hx) then some "edge-inexact" else
+       let wantN := ((hx + 1 - lx).toNat) * ((ly + 1 - hy).toNat)
+       if cov.length != wantN then some "bound-count"
+       else if !(cov.all fun (x, y) => lx ≤ (x : Int) && (x : Int) ≤ hx && hy ≤ (y : Int) && (y : Int) ≤ ly) then some "bound-rect"
+       else none
+     | _, _ => some "bound-not-finite")
+  | _, .collection _ => none
+  | _, g =>
     let paths := pathsOf g
     let polys := polysOf g
     -- boundary / line: every tile a segment passes through is present
@@ -395,6 +422,21 @@ def lastCol (z : Nat) (fs : List (Pt UInt64)) : Bool :=
     x ≥ 0 && x ≤ n && y ≥ 0 && y < n) &&
   (fs.any fun f => Float.ofBits f.x == n)
 
+/-- does `maptile.At`'s west-edge step-back fire (in the model) on a point / multi-point / bound corner? -/
+def stepsBack (z : Nat) (tab : FracTab) : Geom UInt64 → Bool
+  | .point p => one p
+  | .multiPoint ps => ps.any one
+  | .bound a b => one a || one b
+  | _ => false
+where
+  one (p : Pt UInt64) : Bool :=
+    let pf : Pt Float := ⟨Float.ofBits p.x, Float.ofBits p.y⟩
+    let f := fracF tab pf
+    let mx := shl32 1 z
+    let x := f2u32 f.x
+    let x := if mx ≠ 0 ∧ x ≥ mx then mx - 1 else x
+    (tileAt opsF pf.x f z).x != x
+
 def runModel (z : Nat) (tab : FracTab) (fuel : Nat) (g : Geom UInt64) : CRes (List Tile) :=
   cover opsF (fracF tab) z fuel (mapGeom Float.ofBits g)
 
@@ -434,11 +476,12 @@ def handleCover (inp out : Toks) : String :=
            | _ =>
              match parseOk res, geomQ tab g with
              | some cov, some gq =>
-               (match specCover z gq (isEmptyBoundF g) cov with
+               (match specCover z tab g gq (isEmptyBoundF g) cov with
+                | some "edge-inexact" => "skip edge-inexact"
                 | some why => "propfail " ++ why
                 | none =>
                   let big := if cov.length ≥ 400 then "-big" else if cov.length ≤ 1 then "-one" else ""
-                  "ok " ++ kindTag g ++ big)
+                  "ok " ++ kindTag g ++ big ++ (if stepsBack z tab g then "-stepback" else ""))
              | none, _ => "bad output"
              | _, none => "skip non-finite")
     | _ => "bad output-shape"
